@@ -6,6 +6,7 @@ CONSTANTS
   MaxFixed = 2
   CovSpecial = "repaired"
   Menu <- MCMenu
+  BadOps = FALSE
   MaxOps = 4
 SPECIFICATION RC_Spec
 
